@@ -160,6 +160,16 @@ PROPS["C02"] = {
     "explanation": "sliver conversion round trips", "assumptions": [],
 }
 
+PROPS["C13"] = {
+    "modules": ["harness.c13"], "level": "model_checking", "design_ref": "DESIGN.md 2/C13",
+    "level_text": "A 14-node raw substrate model is annotated from symbolic choices (which delegation id each of three delegable nodes carries for labels and "
+                  "for capacities, single or pooled, stitch flag); generate_adms runs on the in-memory backend and every returned partition is checked against "
+                  "the property's clauses (own entries only, no foreign entry, induced sub-model, interface closure, stitch nodes, source untouched, re-keying).",
+    "level_note": XH_NOTE + " The symbolic choices are resolved by solver-decided forks and the partitioning code then runs with tracing off on the concrete "
+                  "annotation: the claim is over all 3^6 x 4 annotations of each family, not over graph shapes (3 families of one skeleton).",
+    "explanation": "ADM partitioning soundness", "assumptions": [],
+}
+
 NOT_APPLICABLE = {
     "C01": "every value on the GraphML/JSON text path crosses expat/lxml/json C code and temp files, where a symbolic value is "
            "concretised; what remains would be concrete sampling, i.e. a different technique (store-level half is decided under C04/C20)",
